@@ -830,7 +830,7 @@ def storage_family(run, replay=None):
     return generic_family(run, replay, hcv='storage', trace_mod='StorageTrace', gen=storage_gen,
                           rules={'MapRule': 'C18', 'ListRule': 'C18'}, level='model_checking',
                           assumptions=['a fresh temporary directory per history; concrete key names, entity names (arbitrary bytes up to 100, or the 36-character form) and value bytes are seeded per case',
-                                       'raw keys contain no colon (the file store strips colons from file names; the pairing database never produces one)',
+                                       'a third of the cases use keys that differ only in a colon or in its escape (Lamp1.serial, Lamp:1.serial, Lamp%3A1.serial): the store has to keep them apart',
                                        'the monitor is the reference map itself: returned bytes are compared with every value written in the case and reported as its token'],
                           rule_text='TLC-generated histories of Set / Get / Delete / listing / SaveEntity / EntityWithName / DeleteEntity / Entities / Reopen over up to 3 keys and 3 entity names with values of length 0, 5, 40, 4096 (one word per model transition, all words up to the stated length on one key and one name, the attack history of the missing truncation, simulation); distinct = abstract history; non-trivial = contains an overwrite or a delete followed by a read',
                           nontrivial=lambda b: len([s for s in b['steps'] if s.get('op') in ('Set', 'SaveEntity', 'Delete', 'DeleteEntity')]) >= 2,
